@@ -597,7 +597,7 @@ func c16FixedT5(iss5 *type5.BatchedPrivateIssuer) type5.BatchedPrivateTokenReque
 func runC16(c *core.Ctx) {
 	m := &c16{c: c, curve: elliptic.P384()}
 	ops := m.ops()
-	reps := c.Pick(4, 60)
+	reps := c.Pick(4, 200)
 	for _, op := range ops {
 		for rep := 0; rep < reps; rep++ {
 			if c.Next() {
